@@ -284,6 +284,38 @@ func init() {
 		rc.cov("sequence_cases", len(u.Cases))
 		rc.execFamily(u, "C12", "C01")
 
+		// like_regex: patterns x flag sets, as a filter over an array of subjects
+		// (each case decides every subject at once) and as predicate checks on
+		// single subjects; judged against spec/Regex.tla (an RE2 matcher in TLA+)
+		pats := []string{"a", "^a", "a$", "^a$", "a.b", "a.*b", "^a.*b$", "[a-c]+", "^[a-c]+$", "[^a]", "(ab|ba)+", "a|b", "a?b", "ab*", `\d+`,
+			`\w+\s\w+`, `^\s*$`, "a{2}", "a{1,2}b", `\.`, "^b", "b$", ".", "^.$", "^..$", "A", "[A-Z]", `a\b`, "(?:a|b)c", "", "x*", "^$", "a+?b", `\Aa`, `a\z`,
+			`[a\]]`, `\$`, "a.", ".b", "^.*$", "(a)(b)", "[ab][ab]", `\S+`, `\D`, "a*", "^a*$", "b+$", "^(a|b)*$", "a\nb", "a$\nb", "^a$|^b$"}
+		flagSets := []wire.Flags{{}, {I: true}, {S: true}, {M: true}, {Q: true}, {I: true, S: true}, {I: true, M: true}, {S: true, M: true}, {I: true, Q: true}, {I: true, S: true, M: true}, {S: true, M: true, Q: true}}
+		subjects := []string{"", "a", "b", "ab", "ba", "aab", "A", "AB", "a\nb", "\n", "a1", "a b", "ab\n", "b\na", "aaa", "1", " ", "a.b", "$", "abc", "A\nB", "\nb", "a\n", "12", "a]", "ac"}
+		var subjVals []wire.Value
+		for _, t := range subjects {
+			subjVals = append(subjVals, wire.StrV(t))
+		}
+		subjVals = append(subjVals, wire.Float(1), wire.Null(), wire.Bool(true), wire.Arr(wire.StrV("a")), wire.Obj("a", wire.StrV("a")))
+		ru := &ExecUniverse{Vars: []VarsRow{{Vars: []wire.Var{}}}}
+		ru.Docs = append(ru.Docs, DocRow{Doc: wire.Value{T: "arr", A: subjVals}})
+		for _, t := range []string{"ab", "a\nb", "AB", ""} {
+			ru.Docs = append(ru.Docs, DocRow{Doc: wire.StrV(t)})
+		}
+		for _, pat := range pats {
+			for _, fl := range flagSets {
+				cond := wire.Node{K: "regex", X: []wire.Node{{K: "cur"}}, Pat: wire.Bytes(pat), Flags: fl}
+				ru.Paths = append(ru.Paths, PathRow{Chain: []wire.Node{{K: "root"}, {K: "anyarr"}, {K: "filter", P: &cond}}})
+				ru.Cases = append(ru.Cases, CaseRef{PI: len(ru.Paths), DI: 1, VI: 1, Lax: true, Zone: "UTC"}, CaseRef{PI: len(ru.Paths), DI: 1, VI: 1, Lax: false, Zone: "UTC"})
+				ru.Paths = append(ru.Paths, PathRow{Pred: true, Chain: []wire.Node{{K: "regex", X: []wire.Node{{K: "root"}}, Pat: wire.Bytes(pat), Flags: fl}}})
+				for d := 2; d <= len(ru.Docs); d++ {
+					ru.Cases = append(ru.Cases, CaseRef{PI: len(ru.Paths), DI: d, VI: 1, Lax: true, Zone: "UTC"})
+				}
+			}
+		}
+		rc.cov("like_regex", map[string]any{"patterns": len(pats), "flag_sets": len(flagSets), "subjects": len(subjVals), "cases": len(ru.Cases)})
+		rc.execFamily(ru, "C12", "C01")
+
 		s := []string{}
 		for _, x := range slots {
 			s = append(s, x.V.Show())
